@@ -628,6 +628,21 @@ fn run_case(property: &str, seed: u64, idx: u64, thorough: bool) -> (Option<Devi
             c = (c & !(3 << 7)) | ((rng.below(2) as u32) << 7);
             cx.ex.apply(0, &Op::CreateKs { ks: k, cfg: c })?;
         }
+        if rng.chance(1, 3) {
+            // views over *recovered* keyspaces: a prelude of writes and maintenance, then a reopen; everything
+            // below (views, transactions, flushes, compactions) then runs on keyspaces that were recovered
+            let mut cfg0 = |r: &mut Rng, _ks: u8| -> u32 { r.below(4096) as u32 & !(1 << 9) & !(1 << 10) };
+            for i in 0..rng.range(3, 40) {
+                let op = gen.next(&cx.ex.model, &mut cfg0);
+                if matches!(op, Op::Reopen { .. }) {
+                    continue;
+                }
+                cx.ex.apply(i as usize, &op)?;
+            }
+            let front = cx.ex.cfg.front;
+            cx.ex.apply(0, &Op::Reopen { front })?;
+            cx.stats.inc("view.cases_on_recovered_keyspaces");
+        }
         if let Some(Front::Single(d)) = cx.ex.front.as_ref() {
             // 'static handle for write transactions that live inside the view list
             let leaked: &'static SingleWriterTxDatabase = Box::leak(Box::new(d.clone()));
